@@ -1789,6 +1789,122 @@ theorem find_rootdict_total (objs : List (List CTag)) (h : ∀ g ∈ objs, isRoo
 example : recoverRootdict [[⟨0, .str sSection⟩], [⟨0, .str sDictionary⟩, ⟨5, .str [67]⟩], [⟨0, .str sXrecord⟩]]
     = [[⟨0, .str sSection⟩], [⟨0, .str sDictionary⟩, ⟨5, .str [67]⟩], [⟨0, .str sXrecord⟩]] := by rfl
 
+/-! ## 14. Faults that BREAK the pairing of code and value lines (a lost or an extra line) -/
+
+open EzdxfVerif.Lemmas.RecoverCausal in
+/-- after well-formed pairs, a line at a CODE position that is no integer (`int()` and `_search_int` fail): `bytes_loader`
+    delivers exactly the tags of the pairs and raises DXFStructureError there - nothing behind it is read -/
+theorem loader_stops_at_noninteger (ps : List (Bytes × Bytes)) (hp : ∀ p ∈ ps, PairOk p) (bad : Bytes)
+    (h : parseCode bad = none) (rest : List Bytes) :
+    bytesLoader (chunkLines ps ++ bad :: rest) = ⟨chunkTags ps, some .dxfStructureError⟩ :=
+  EzdxfVerif.Lemmas.RecoverCausal.loader_stops ps hp bad h rest
+
+open EzdxfVerif.Lemmas.RecoverCausal in
+/-- **Resynchronisation after a lost or an extra line.**  `c` = the line left without partner: the code line whose value
+    line was lost (`drop_value_line`), the value line whose code line was lost (`drop_code_line`) or an inserted line; all
+    three give the line sequence  A ++ c :: pairs.  The tags `A` in front are untouched; behind the
+    fault the code line `c` takes the next code line as value and every following value line stands at a code position
+    (`shiftPairs`).  The loader yields the re-paired tags `good` only as long as those former value lines contain an
+    integer (`int()` or `_search_int` succeeds) and raises DXFStructureError at the first one (`bad`) that does not: exactly `tags(A) ++ tags(good)` is
+    delivered, no tag behind `bad` is ever produced - the shift never silently re-synchronises. -/
+theorem lost_value_line_resync (A ps good more : List (Bytes × Bytes)) (c bad x : Bytes) (rest : List Bytes)
+    (hA : ∀ p ∈ A, PairOk p) (hgood : ∀ p ∈ good, PairOk p) (hbad : parseCode bad = none)
+    (hsh : (shiftPairs c ps).1 = good ++ (bad, x) :: more) :
+    bytesLoader (chunkLines A ++ c :: chunkLines ps ++ rest)
+      = ⟨chunkTags A ++ chunkTags good, some .dxfStructureError⟩ := by
+  have e : c :: chunkLines ps ++ rest
+      = chunkLines good ++ bad :: (x :: chunkLines more ++ [(shiftPairs c ps).2] ++ rest) := by
+    rw [shift_lines ps c, hsh]
+    simp [chunkLines]
+  have e2 : chunkLines A ++ c :: chunkLines ps ++ rest = chunkLines A ++ (c :: chunkLines ps ++ rest) := by simp
+  rw [e2, e, bytesLoader_chunk A hA, loader_stops good hgood bad hbad]
+
+open EzdxfVerif.Lemmas.RecoverCausal in
+/-- **byte level**: a file whose lines are well-formed pairs followed by a line at a code position that is no integer
+    (what every lost / extra line produces as soon as a non-integer value line reaches a code position): `recover`
+    raises DXFStructureError - it never returns a document built from mis-paired lines behind that point -/
+theorem lost_line_raises (ps : List (Bytes × Bytes)) (hp : ∀ p ∈ ps, PairOk p) (bad : Bytes) (hl : IsLine bad)
+    (h : parseCode bad = none) (restBytes : Bytes) :
+    recoverFront Cfg.tree (chunkBytes ps ++ bad ++ restBytes) = .error .dxfStructureError := by
+  have hlines : splitLines (chunkBytes ps ++ bad ++ restBytes) = chunkLines ps ++ bad :: splitLines restBytes := by
+    have hall : ∀ l ∈ chunkLines ps ++ [bad], IsLine l := by
+      intro l hm
+      rcases List.mem_append.1 hm with h1 | h1
+      · exact isLine_chunk ps hp l h1
+      · simp only [List.mem_singleton] at h1; rw [h1]; exact hl
+    have := splitLines_lines (chunkLines ps ++ [bad]) hall restBytes
+    simpa [chunkBytes] using this
+  have herr : (bytesLoader (splitLines (chunkBytes ps ++ bad ++ restBytes))).err = some .dxfStructureError := by
+    rw [hlines, loader_stops ps hp bad h]
+  rcases front_total (chunkBytes ps ++ bad ++ restBytes) with ⟨d, hd⟩ | he
+  · exfalso
+    unfold recoverFront at hd
+    cases hT : loadTags Cfg.tree (chunkBytes ps ++ bad ++ restBytes) with
+    | error e => rw [hT] at hd; simp at hd
+    | ok T => exact loadTags_not_ok Cfg.tree _ _ herr T hT
+  · exact he
+
+open EzdxfVerif.Lemmas.RecoverCausal in
+/-- **Complete classification of `bytes_loader`** on an ARBITRARY line list (so in particular on every list that a lost,
+    duplicated or inserted line leaves behind): the list is  pairs ++ tail  with all pairs passing (code parses, not
+    (0, EOF)); the loader yields exactly the tags of the pairs and ends in exactly one of three ways - the lines are used up
+    (at most one unpaired last line with a parsable code), a (0, EOF) tag (yielded, nothing behind it is read), or a line
+    at a code position without an integer (DXFStructureError).  Together with `lost_value_line_resync` this says what a
+    shifted stream can do: it runs on re-paired until one of these three ends. -/
+theorem loader_classification (ls : List Bytes) : ∃ (ps : List (Bytes × Bytes)) (tail : List Bytes) (e : LoaderEnd),
+    (∀ p ∈ ps, CodeOk p) ∧ ls = chunkLines ps ++ tail ∧
+    (match e with
+     | .endOfLines => (tail = [] ∨ ∃ c, tail = [c] ∧ (parseCode c).isSome = true) ∧ bytesLoader ls = ⟨chunkTags ps, none⟩
+     | .eofTag => (∃ c v rest, tail = c :: v :: rest ∧ parseCode c = some 0 ∧ rstripCRLF v = sEof) ∧
+         bytesLoader ls = ⟨chunkTags ps ++ [⟨0, sEof⟩], none⟩
+     | .badCode => (∃ c rest, tail = c :: rest ∧ parseCode c = none) ∧ bytesLoader ls = ⟨chunkTags ps, some .dxfStructureError⟩) :=
+  EzdxfVerif.Lemmas.RecoverCausal.loader_classification ls
+
+/-- `byte_tag_compiler` never yields more tags than it reads: from the start state the number of compiled tags is at most
+    the number of raw tags (a point consumes 2-3 tags for one vertex; the `undo_tag` is re-read, not duplicated) -/
+theorem compiler_bounded (cfg : Cfg) (enc : Enc) (raw : List RawTag) (T : List CTag)
+    (h : compile cfg enc raw = .ok T) : T.length ≤ raw.length := by
+  have := EzdxfVerif.Lemmas.RecoverCausal.compileGo_bounded cfg enc raw .none T h
+  simpa [EzdxfVerif.Lemmas.RecoverCausal.credit] using this
+
+/-- no loop of the loader can run away: every yielded tag consumes two lines -/
+theorem loader_bounded (ls : List Bytes) : 2 * (bytesLoader ls).tags.length ≤ ls.length :=
+  EzdxfVerif.Lemmas.RecoverCausal.loader_bounded ls
+
+private theorem splitLinesAux_bounded (r : Bytes) : ∀ cur : Bytes, (splitLinesAux cur r).length ≤ r.length + 1 := by
+  induction r with
+  | nil => intro cur; unfold splitLinesAux; split <;> simp
+  | cons b r ih =>
+    intro cur
+    unfold splitLinesAux
+    split
+    · have := ih []
+      simp only [List.length_cons]; omega
+    · have := ih (b :: cur)
+      simp only [List.length_cons]; omega
+
+/-- **termination, explicitly**: every function of the front-end model is defined by structural recursion on its input
+    list (no fuel, no well-founded recursion, checked by Lean's termination checker when `Model/Recover.lean` is compiled),
+    so `recoverFront` is a total function: it has a value for EVERY byte string, and the number of raw tags the
+    loader can yield - the input of every later loop - is bounded by half the number of bytes plus one -/
+theorem front_terminates (bytes : Bytes) :
+    (∃ r, recoverFront Cfg.tree bytes = r) ∧
+      2 * (bytesLoader (splitLines bytes)).tags.length ≤ bytes.length + 1 := by
+  refine ⟨⟨_, rfl⟩, ?_⟩
+  have h1 := loader_bounded (splitLines bytes)
+  have h2 : (splitLines bytes).length ≤ bytes.length + 1 := splitLinesAux_bounded bytes []
+  omega
+
+/-- non-vacuity: "  0\\nLINE\\n  8\\n" + (value line "0" of the layer tag lost) + "  6\\nCONT\\n 10\\n1.5\\n": the 8 takes "  6" as
+    value, "CONT" stands at a code position and holds no integer.  (A line like "1.5" WOULD parse: `_search_int` finds
+    the 1 - the shift goes on until a value line without any digit, a name or a text, reaches a code position.) -/
+example : (EzdxfVerif.Lemmas.RecoverCausal.shiftPairs [32, 32, 56, 10]
+      [([32, 32, 54, 10], [67, 79, 78, 84, 10]), ([32, 49, 48, 10], [49, 46, 53, 10])]).1
+    = [([32, 32, 56, 10], [32, 32, 54, 10])] ++ ([67, 79, 78, 84, 10], [32, 49, 48, 10]) :: [] := by rfl
+#guard parseCode [67, 79, 78, 84, 10] == none && parseCode [49, 46, 53, 10] == some 1
+#guard (match recoverFront Cfg.tree ("  0\nLINE\n  8\n  6\nCONT\n 10\n1.5\n  0\nEOF\n".toUTF8.toList.map (·.toNat)) with
+  | .error .dxfStructureError => true | _ => false)
+
 /-! ## 7. Obligations on the generated tables -/
 
 /-- the group codes whose VALUE the front end inspects as text - 0 (structure), 2 (section / table names), 3 and 9
